@@ -23,7 +23,7 @@ from ..oracle import c12_brute as ob
 
 RULES["C12"] = (
     "Pool mesh (tetra, box, octahedron, icosphere, non-convex prism, torus, uv-sphere, one or two disjoint bodies, optional "
-    "vertex jitter, optional removed faces for ray/nearest queries, optionally 1..8 unreferenced vertices inserted at the start / middle / end of or spread over the vertex array, in and around the box and close to the surface: nearest.vertex is the minimum over all rows of mesh.vertices as documented, every other query must not notice them) under a similarity placement: scale 10^U(-2,3) with extra "
+    "vertex jitter, optional removed faces for ray/nearest queries, optionally 1..4 zero-area faces lying on edges of ordinary faces (repeated index [i,i,j] / [i,j,i] / [j,i,i] / [i,i,i], three collinear distinct vertices, two coincident vertices) inserted at the start / middle / end of or spread over the face array: they are never hit by a ray and the oracle surface is the set of non-degenerate faces; every returned float must be finite; optionally 1..8 unreferenced vertices inserted at the start / middle / end of or spread over the vertex array, in and around the box and close to the surface: nearest.vertex is the minimum over all rows of mesh.vertices as documented, every other query must not notice them) under a similarity placement: scale 10^U(-2,3) with extra "
     "weight on both ends, rotation identity / exact quarter turn / random, offset 0 / ~10 / ~1e3 / 1e4..3e6 mesh scales (float64 tolerances carry 256*eps*|coords| / 64*eps*|coords| terms; embree is judged in its own shifted, scaled float32 scene). Rays by "
     "construction: target inside a face (barycentrics >= 0.05) or anywhere in the inflated box, origin >= 1e-3*diag from the "
     "surface inside the bounds / on a shell outside / 20..1000 diag away, direction target-origin (raw or unitized), exact "
@@ -108,6 +108,41 @@ class Geo:
             if keep.sum() >= 2:
                 F = F[keep]
         self.closed = not drop
+        deg = np.zeros(len(F), dtype=bool)
+        dg = case.get("degen")
+        if dg:
+            # zero-area faces in addition to the ordinary ones, all of them lying ON the surface (along an edge of an
+            # ordinary face), so that "minimum over the non-degenerate triangles" and "minimum over the point set" agree:
+            # repeated index, three collinear distinct vertices, zero-length edge through two coincident vertices
+            rs = np.random.RandomState(int(dg["seed"]) & 0x7FFFFFFF)
+            newf = []
+            for kind in dg["kinds"]:
+                f = F[int(rs.randint(len(F)))]
+                e = int(rs.randint(3))
+                i, j = int(f[e]), int(f[(e + 1) % 3])
+                if kind == "iij":
+                    newf.append([i, i, j])
+                elif kind == "iji":
+                    newf.append([i, j, i])
+                elif kind == "jii":
+                    newf.append([j, i, i])
+                elif kind == "iii":
+                    newf.append([i, i, i])
+                elif kind == "collinear":
+                    V = np.vstack((V, [V[i] + (V[j] - V[i]) * rs.uniform(0.2, 0.8)]))
+                    newf.append([i, len(V) - 1, j][:: (1 if rs.uniform() < 0.5 else -1)])
+                else:  # coincident: a second copy of vertex i
+                    V = np.vstack((V, [V[i]]))
+                    newf.append([i, len(V) - 1, j])
+            k = len(newf)
+            nf0 = len(F)
+            pos = {"start": np.zeros(k, dtype=np.int64), "end": np.full(k, nf0, dtype=np.int64), "middle": np.full(k, nf0 // 2, dtype=np.int64)}.get(dg["where"])
+            if pos is None:
+                pos = np.sort(rs.randint(0, nf0 + 1, k))
+            F = np.insert(F, pos, np.array(newf, dtype=np.int64), axis=0)
+            deg = np.insert(deg, pos, True)
+        self.deg = deg
+        self.good = np.nonzero(~deg)[0]
         self.n_extra = 0
         extra = case.get("extra")
         if extra:
@@ -123,7 +158,7 @@ class Geo:
                 if rs.uniform() < 0.5:
                     X.append((lo + hi) / 2.0 + (rs.uniform(0, 1, 3) - 0.5) * (hi - lo) * rs.choice([1.0, 1.6, 4.0]))
                 else:
-                    f = int(rs.randint(len(F)))
+                    f = int(self.good[int(rs.randint(len(self.good)))])
                     b = rs.dirichlet((1.0, 1.0, 1.0))
                     nrm = np.cross(B_[f] - A_[f], C_[f] - A_[f])
                     nrm /= np.linalg.norm(nrm)
@@ -142,7 +177,8 @@ class Geo:
             V = np.ascontiguousarray(V2)
             self.n_extra = k
         self.V, self.F = V, F
-        self.A, self.B, self.C = ob.corners(V, F)
+        self.A, self.B, self.C = ob.corners(V, F)  # all faces, indexed like mesh.faces
+        self.Ag, self.Bg, self.Cg = self.A[self.good], self.B[self.good], self.C[self.good]  # the surface: non-degenerate faces
         ref = np.unique(F)
         self.lo = V[ref].min(axis=0)
         self.hi = V[ref].max(axis=0)
@@ -152,11 +188,22 @@ class Geo:
         self.referenced = np.zeros(len(V), dtype=bool)
         self.referenced[ref] = True
         self.cmax = float(np.abs(V).max())
-        self.nh, self.a2, self.alt = ob.tri_geometry(self.A, self.B, self.C)
+        with np.errstate(all="ignore"):
+            self.nh, self.a2, self.alt = ob.tri_geometry(self.A, self.B, self.C)  # rows of degenerate faces are nan / 0 and never used
         self.mesh = trimesh.Trimesh(V.copy(), F.copy(), process=False)
 
     def dist(self, p):
-        return ob.mesh_distance(self.A, self.B, self.C, p)[0]
+        return ob.mesh_distance(self.Ag, self.Bg, self.Cg, p)[0]
+
+    def surface_distance(self, p):
+        """ob.mesh_distance over the non-degenerate faces, reported with indices of mesh.faces (degenerate faces: inf)"""
+        d, tri, q, feat, alld = ob.mesh_distance(self.Ag, self.Bg, self.Cg, p)
+        full = np.full(len(self.F), np.inf)
+        full[self.good] = alld
+        return d, int(self.good[tri]), q, feat, full
+
+    def winding(self, p):
+        return ob.winding_number(self.Ag, self.Bg, self.Cg, p)
 
 
 def scale_class(diag):
@@ -187,7 +234,7 @@ def gen_rays(rs, g, n):
     for _ in range(n):
         r = rs.uniform()
         okind = ["inbox", "shell", "far"][int(rs.choice(3, p=[0.4, 0.4, 0.2]))]
-        f = int(rs.randint(nf))
+        f = int(g.good[int(rs.randint(len(g.good)))])
         b = 0.05 + 0.85 * rs.dirichlet((1.0, 1.0, 1.0))
         target = b[0] * g.A[f] + b[1] * g.B[f] + b[2] * g.C[f]
         if r < 0.40:
@@ -247,14 +294,24 @@ def shared_rays(rs, g, rays, mode):
 def classify_rays(g, O, D):
     """oracle pass.  Returns per ray: gp (general position), hits (list of (t, tri) sorted by t), clearance (min distance
     of the ray to any triangle edge), reason of discard."""
-    res = ob.rays_all(g.A, g.B, g.C, O, D)
-    t, par, cosang = res["t"], res["par"], res["cosang"]
+    res = ob.rays_all(g.Ag, g.Bg, g.Cg, O, D)
     bst = np.stack((res["b0"], res["b1"], res["b2"]), axis=-1)
     with np.errstate(all="ignore"):
-        bmin = bst.min(axis=-1)
+        bmin_g = bst.min(axis=-1)
     dn = np.linalg.norm(D, axis=1)
     reach = np.linalg.norm(O - g.centre, axis=1) + 2.0 * g.diag
-    edged = ob.halfline_edge_dist(g.A, g.B, g.C, O, D, reach)
+    edged_g = ob.halfline_edge_dist(g.Ag, g.Bg, g.Cg, O, D, reach)
+    # a degenerate face is never crossed: parallel, no parameter, infinitely far from the ray (it lies on an edge of an
+    # ordinary face, which the general-position rule already keeps the ray away from)
+    shape = (len(O), len(g.F))
+    t = np.full(shape, np.nan)
+    par = np.ones(shape, dtype=bool)
+    cosang = np.zeros(shape)
+    bmin = np.full(shape, -np.inf)
+    edged = np.full(shape, np.inf)
+    alt_min = np.full(len(g.F), np.inf)
+    t[:, g.good], par[:, g.good], cosang[:, g.good], bmin[:, g.good], edged[:, g.good] = res["t"], res["par"], res["cosang"], bmin_g, edged_g
+    alt_min[g.good] = g.alt[g.good].min(axis=1)
     out = []
     for r in range(len(O)):
         fwd = (~par[r]) & (t[r] > 0)
@@ -266,7 +323,7 @@ def classify_rays(g, O, D):
             reason = "grazing_hit"
         elif (fwd & ~hit & (bmin[r] > -BARY)).any():
             reason = "miss_near_edge"
-        elif (par[r] & (edged[r] < BARY * g.alt.min(axis=1))).any():
+        elif (par[r] & (edged[r] < BARY * alt_min)).any():
             reason = "parallel_near_edge"
         elif not np.isfinite(t[r][~par[r]]).all():
             reason = "nonfinite"
@@ -281,7 +338,7 @@ def classify_rays(g, O, D):
             if (np.diff(ts) < 1e-5 * g.diag).any():
                 reason = "coincident_hits"
         gap = float(np.diff([h[0] for h in hits]).min() * dn[r]) if len(hits) > 1 else np.inf
-        out.append({"gp": reason is None, "reason": reason, "hits": hits, "clear": float(edged[r].min()), "cos": cosang[r], "t": t[r], "bmin": bmin[r], "gap": gap})
+        out.append({"gp": reason is None, "reason": reason, "hits": hits, "clear": float(edged[r].min()), "cos": cosang[r], "t": t[r], "bmin": bmin[r], "gap": gap, "deg": g.deg})
     return out
 
 
@@ -293,6 +350,8 @@ def _why_spurious(info, r, tri):
     """class of a reported (ray, triangle) pair the oracle does not have"""
     if tri < 0 or tri >= len(info[r]["t"]):
         return "index_out_of_range"
+    if info[r]["deg"][tri]:
+        return "degenerate_face_reported"
     if info[r]["t"][tri] < 0 and info[r]["bmin"][tri] > 0:
         return "crossed_behind_origin"
     return "not_crossed"
@@ -421,6 +480,7 @@ def check_engine(name, eng, g, O, D, info, dirmode, multi_ok):
 def _check_locations(sig, loc, ir, it, O, D, dh, info, g, loc_rel):
     for k in range(len(loc)):
         r, tri = int(ir[k]), int(it[k])
+        check(np.isfinite(loc[k]).all(), sig + "|not_finite", f"ray {r} tri {tri}: location {loc[k].tolist()}")
         s = float(np.dot(loc[k] - O[r], dh[r]))
         cosr = max(abs(float(info[r]["cos"][tri])), COSMIN)
         coords = max(g.cmax, float(np.abs(O[r]).max()))
@@ -500,6 +560,7 @@ def b_ray(case, ctx):
             if okind == "inbox" and k:
                 ctx.note(cls="origin:inbox_with_hit")
         engine = case["engine"]
+        ctx.note(cls="ray_faces:" + ("with_degenerate" if g.deg.any() else "all_ordinary"))
         ctx.note(cls="ray_mesh:" + ("with_unreferenced_vertices" if not g.referenced.all() else "all_referenced"))
         ctx.note(nontrivial=sum(nh) > 0, cls=[f"engine:{engine}", f"dir:{dirmode}", scale_class(g.diag), "place:" + case["place"]["rot"] + "/" + case["place"]["off"], "ray_offset:" + case["place"]["off"]])
         # hit points shared between different rays of this batch (the oracle's own points, 1e-7*diag apart)
@@ -546,7 +607,7 @@ def gen_points(rs, g, n):
     for _ in range(n):
         r = rs.uniform()
         h = g.diag * 10.0 ** rs.uniform(-3.0, 0.0) * (1.0 if rs.uniform() < 0.5 else -1.0)
-        f = int(rs.randint(nf))
+        f = int(g.good[int(rs.randint(len(g.good)))])
         tri = np.array([g.A[f], g.B[f], g.C[f]])
         if r < 0.14:
             b = rs.dirichlet((1.0, 1.0, 1.0))
@@ -565,7 +626,7 @@ def gen_points(rs, g, n):
             q = a + (b - a) * s
             # average normal of all faces containing this edge (found by vertex ids)
             va, vb = g.F[f][k], g.F[f][(k + 1) % 3]
-            adj = np.nonzero(((g.F == va).any(axis=1)) & ((g.F == vb).any(axis=1)))[0]
+            adj = np.nonzero(((g.F == va).any(axis=1)) & ((g.F == vb).any(axis=1)) & ~g.deg)[0]
             nrm = g.nh[adj].sum(axis=0)
             if np.linalg.norm(nrm) < 1e-6:
                 nrm = g.nh[f]
@@ -580,7 +641,7 @@ def gen_points(rs, g, n):
             out.append((p, "axis_from_vertex"))
         elif r < 0.64:
             v = g.F[f][int(rs.randint(3))]
-            adj = np.nonzero((g.F == v).any(axis=1))[0]
+            adj = np.nonzero((g.F == v).any(axis=1) & ~g.deg)[0]
             nrm = (g.nh[adj] * g.a2[adj][:, None]).sum(axis=0)
             if np.linalg.norm(nrm) < 1e-9 * g.a2.max():
                 nrm = g.nh[f]
@@ -645,7 +706,7 @@ def b_contains(case, ctx):
             if g.dist(p) < margin:
                 ctx.note(cls="cpoint_discard:near_surface")
                 continue
-            w = ob.winding_number(g.A, g.B, g.C, p)
+            w = g.winding(p)
             if abs(w - round(w)) > 1e-6 or round(w) not in (0, 1):
                 ctx.note(cls="cpoint_discard:winding_not_0_or_1")
                 continue
@@ -668,6 +729,7 @@ def b_contains(case, ctx):
         engine = case["engine"]
         for i in range(n):
             ctx.note(cls=["cpoint_kept", "cpoint:" + labels[i], "cloc:" + ("inside" if inside[i] else "outside_in_box" if inbox[i] else "outside_box"), "cpoint_rays:" + ("gp" if gp[i] else "nongp")])
+        ctx.note(cls="contains_faces:" + ("with_degenerate" if g.deg.any() else "all_ordinary"))
         ctx.note(cls="contains_mesh:" + ("with_unreferenced_vertices" if not g.referenced.all() else "all_referenced"))
         ctx.note(nontrivial=True, cls=[f"contains_engine:{engine}", scale_class(g.diag), "contains_offset:" + case["place"]["off"]])
         if engine == "native":
@@ -695,6 +757,8 @@ def b_contains(case, ctx):
             if engine == "embree":
                 cause, step = embree_contains_cause(g, hits_f, hits_b, info[i]["cos"], info[i + n]["cos"])
                 extra = f" [embree re-launch offset {step:.3g}, diag {g.diag:.3g}]"
+            if g.deg.any():
+                cause += "|mesh_with_degenerate_faces"
             sig = f"C12.contains|{engine}{cause}|{cls}|rays={'gp' if gp[i] else 'nongp'}"
             raise Violation(sig, f"point {i} ({labels[i]}) {P[i].tolist()}: contains={bool(got[j])}, winding number says inside={bool(inside[i])}; distance to surface {g.dist(P[i]):.3g}; oracle hits along +dir {len(hits_f)}, -dir {len(hits_b)}{extra}")
 
@@ -726,7 +790,7 @@ def b_prox(case, ctx):
         margin = MARGIN * g.diag
         P, labels, ref = [], [], []
         for p, lab in pts:
-            d, tri, q, feat, alld = ob.mesh_distance(g.A, g.B, g.C, p)
+            d, tri, q, feat, alld = g.surface_distance(p)
             if d < margin:
                 ctx.note(cls="ppoint_discard:near_surface")
                 continue
@@ -739,6 +803,9 @@ def b_prox(case, ctx):
         P = np.array(P)
         n = len(P)
         m = g.mesh
+        ctx.note(cls="prox_faces:" + ("with_degenerate" if g.deg.any() else "all_ordinary"))
+        for kd in (case.get("degen") or {}).get("kinds", []):
+            ctx.note(cls="degenerate_face:" + kd)
         ctx.note(cls="prox_vertices:" + ("with_unreferenced" if not g.referenced.all() else "all_referenced"))
         ctx.note(nontrivial=True, cls=[scale_class(g.diag), "prox_mesh:" + ("closed" if g.closed else "open"), "prox_offset:" + case["place"]["off"]])
         for i in range(n):
@@ -760,6 +827,7 @@ def b_prox(case, ctx):
             check(abs(dv[i] - dd.min()) <= tol, "C12.prox|vertex|distance" + vcls, f"point {P[i].tolist()}: {dv[i]} vs {dd.min()}")
 
         # ---- nearest.on_surface
+        dcls = "|mesh_with_degenerate_faces" if g.deg.any() else ""
         cl, dist, tid = m.nearest.on_surface(P.copy())
         cl = np.asarray(cl, dtype=np.float64)
         dist = np.asarray(dist, dtype=np.float64)
@@ -768,6 +836,10 @@ def b_prox(case, ctx):
         for i in range(n):
             d, tri, q, feat, alld = ref[i]
             tol = DIST_RTOL * d + 64 * EPS * (g.cmax + np.abs(P[i]).max())
+            check(np.isfinite(dist[i]) and np.isfinite(cl[i]).all(), "C12.prox|on_surface|not_finite" + dcls, f"point {i} ({labels[i]}) {P[i].tolist()}: closest {cl[i].tolist()} distance {dist[i]!r} triangle {int(tid[i])}; the minimum over the {len(g.good)} non-degenerate triangles is {d!r}")
+            check(0 <= int(tid[i]) < len(g.F), "C12.prox|on_surface|triangle_range", str(int(tid[i])))
+            if g.deg.any():
+                ctx.note(cls="on_surface_reports:" + ("degenerate_face" if g.deg[int(tid[i])] else "ordinary_face_in_mesh_with_degenerate"))
             if abs(dist[i] - d) > tol:
                 # root-cause class: is a second triangle inside the library's absolute tie window on SQUARED distances?
                 cls = "too_large" if dist[i] > d else "too_small"
@@ -775,20 +847,21 @@ def b_prox(case, ctx):
             check(0 <= int(tid[i]) < len(g.F), "C12.prox|on_surface|triangle_range", str(int(tid[i])))
             dq = float(np.linalg.norm(cl[i] - P[i]))
             check(abs(dq - d) <= tol, "C12.prox|on_surface|point_not_at_distance", f"point {i} {P[i].tolist()}: closest {cl[i].tolist()} is {dq!r} away, distance is {d!r}")
-            res = ob.point_triangle_residual(g.A, g.B, g.C, int(tid[i]), cl[i])
+            res = (ob.point_edges_residual if g.deg[int(tid[i])] else ob.point_triangle_residual)(g.A, g.B, g.C, int(tid[i]), cl[i])
             check(res <= 1e-9 * g.diag + 64 * EPS * g.cmax, "C12.prox|on_surface|point_off_triangle", f"point {i}: closest {cl[i].tolist()} is {res:.3g} from reported triangle {int(tid[i])}")
 
         # ---- signed distance (watertight meshes only)
         if g.closed:
-            wn = np.array([ob.winding_number(g.A, g.B, g.C, p) for p in P])
+            wn = np.array([g.winding(p) for p in P])
             okw = (np.abs(wn - np.round(wn)) < 1e-6) & np.isin(np.round(wn), (0, 1))
             sd = np.asarray(m.nearest.signed_distance(P.copy()), dtype=np.float64)
             check(sd.shape == (n,), "C12.prox|signed_distance|shape", f"{sd.shape}")
             for i in range(n):
                 d, tri, q, feat, alld = ref[i]
                 tol = DIST_RTOL * d + 64 * EPS * (g.cmax + np.abs(P[i]).max())
+                check(np.isfinite(sd[i]), "C12.prox|signed_distance|not_finite" + dcls, f"point {i} ({labels[i]}) {P[i].tolist()}: signed distance {sd[i]!r}, distance to the surface is {d!r}")
                 if abs(abs(sd[i]) - d) > tol:
-                    raise Violation(f"C12.prox|signed_distance|magnitude|{_prox_cause(g, P[i], tri, alld)}", f"point {i} {P[i].tolist()}: |{sd[i]!r}| vs {d!r}")
+                    raise Violation(f"C12.prox|signed_distance|magnitude|{'closest_face_reported_is_degenerate' if g.deg[int(tid[i])] else _prox_cause(g, P[i], tri, alld)}", f"point {i} {P[i].tolist()}: |{sd[i]!r}| vs {d!r}")
                 if not okw[i]:
                     continue
                 ins = abs(wn[i]) >= 0.5
@@ -830,6 +903,9 @@ def base_case(draw, allow_drop=True, nmax=16):
     case = {"mesh": spec, "place": draw(place_st()), "seed": draw(st.integers(0, 2**31 - 1)), "n": draw(st.integers(1, nmax))}
     if allow_drop and draw(st.integers(0, 4)) == 0:
         case["drop"] = draw(st.lists(st.integers(0, 400), min_size=1, max_size=4))
+    if draw(st.integers(0, 2)) == 0:
+        case["degen"] = {"seed": draw(st.integers(0, 2**31 - 1)), "kinds": draw(st.lists(st.sampled_from(["iij", "iji", "jii", "iii", "collinear", "coincident"]), min_size=1, max_size=4)),
+                         "where": draw(st.sampled_from(["start", "middle", "end", "spread"]))}
     if draw(st.integers(0, 2)) == 0:
         case["extra"] = {"seed": draw(st.integers(0, 2**31 - 1)), "k": draw(st.integers(1, 8)), "where": draw(st.sampled_from(["start", "middle", "end", "spread"]))}
     return case
@@ -915,6 +991,14 @@ REQUIRED_CLASSES["C12"] = [
     "cpoint:on_test_line",
     "ray_offset:vfar",
     "ray_mesh:with_unreferenced_vertices",
+    "ray_faces:with_degenerate",
+    "contains_faces:with_degenerate",
+    "prox_faces:with_degenerate",
+    "degenerate_face:iij",
+    "degenerate_face:iji",
+    "degenerate_face:iii",
+    "degenerate_face:collinear",
+    "degenerate_face:coincident",
     "contains_mesh:with_unreferenced_vertices",
     "prox_vertices:with_unreferenced",
     "nearest_vertex:unreferenced",
